@@ -73,6 +73,12 @@ pub open spec fn le_value(s: Seq<u8>) -> nat
 pub open spec fn mem_value(s: Seq<u8>, little_endian: bool) -> nat {
     if little_endian { le_value(s) } else { be_value(s) }
 }
+/// the order in which `read` folds the stored bytes into a value (most significant first): the stored order for a
+/// big endian image, the reversed order for a little endian one.  Used only in the loop invariant of `read`;
+/// lemma_read_order_value relates it to `mem_value`, the postcondition of `read` does not mention it.
+pub open spec fn read_order(s: Seq<u8>, little_endian: bool) -> Seq<u8> {
+    if little_endian { s.reverse() } else { s }
+}
 /// the bytes stored at [a, a+n) of a segment containing that range
 pub open spec fn seg_bytes_at(s: MemorySegment, a: int, n: int) -> Seq<u8> {
     s.bytes@.subrange(a - s.base_address as int, a - s.base_address as int + n)
